@@ -39,10 +39,84 @@ fn check_elem<F: Fld>(o: Outcome, site: &str, x: &F, expect: u128) -> Outcome {
     o
 }
 
+/// (a * b) mod m through a 256-bit product and shift-subtract reduction of the high half by the
+/// identity 2^128 = 2^128 - m (mod m); independent of the implementation and of `oracle::mulmod`,
+/// fast enough for the volume runs
+fn mulmod_wide(a: u128, b: u128, m: u128) -> u128 {
+    if m <= 1u128 << 64 {
+        return ((a % m) * (b % m)) % m;
+    }
+    let (a0, a1) = (a & 0xFFFF_FFFF_FFFF_FFFF, a >> 64);
+    let (b0, b1) = (b & 0xFFFF_FFFF_FFFF_FFFF, b >> 64);
+    let (p00, p01, p10, p11) = (a0 * b0, a0 * b1, a1 * b0, a1 * b1);
+    let (mid, c1) = p01.overflowing_add(p10);
+    let (lo, c0) = p00.overflowing_add(mid << 64);
+    let mut hi = p11 + (mid >> 64) + ((c1 as u128) << 64) + c0 as u128;
+    let mut lo = lo;
+    let k = 0u128.wrapping_sub(m); // 2^128 - m, below 2^64 for the 128-bit field of this library
+    assert!(k < 1u128 << 64);
+    // hi * 2^128 + lo = hi * k + lo (mod m); hi * k < 2^192, so two rounds leave hi = 0 or a carry
+    while hi > 0 {
+        let (h0, h1) = (hi & 0xFFFF_FFFF_FFFF_FFFF, hi >> 64);
+        let q0 = h0 * k;
+        let q1 = h1 * k; // weight 2^64
+        let (s1, d1) = q0.overflowing_add(q1 << 64);
+        let (s2, d2) = s1.overflowing_add(lo);
+        hi = (q1 >> 64) + d1 as u128 + d2 as u128;
+        lo = s2;
+    }
+    lo % m
+}
+
+/// `soak <op> <seed> <count>`: `count` pseudo-random operands derived from `seed`, judged by the oracle
+/// only (no per-case line, not compared with the model): reaches events of probability ~1/count
+fn soak<F: Fld>(op: &str, seed: u64, count: u64) -> Outcome {
+    let m = F::MOD;
+    let mut rng = Rng::new(seed ^ 0x9E37_79B9_7F4A_7C15);
+    let mut o = Outcome::ok(format!("ok {}", count));
+    for _ in 0..count {
+        let a = rng.u128() % m;
+        let x = F::from_word(a);
+        let bad = match op {
+            "inv" => {
+                let y = x.inv().canon();
+                let want = if a == 0 { 0 } else { 1 };
+                if mulmod_wide(a, y, m) != want || (a == 0 && y != 0) || y >= m { Some(format!("inv({}) = {}", a, y)) } else { None }
+            },
+            "mul" => {
+                let b = rng.u128() % m;
+                let y = (x * F::from_word(b)).canon();
+                if y != mulmod_wide(a, b, m) { Some(format!("{} * {} = {}", a, b, y)) } else { None }
+            },
+            "div" => {
+                let b = rng.u128() % m;
+                let y = (x / F::from_word(b)).canon();
+                let back = mulmod_wide(y, b, m);
+                if (b != 0 && back != a) || (b == 0 && y != 0) { Some(format!("{} / {} = {}", a, b, y)) } else { None }
+            },
+            "addsub" => {
+                let b = rng.u128() % m;
+                let fb = F::from_word(b);
+                let (s, d) = ((x + fb).canon(), (x - fb).canon());
+                if s != addmod(a, b, m) || d != submod(a, b, m) { Some(format!("{} +- {} = {} / {}", a, b, s, d)) } else { None }
+            },
+            _ => return Outcome::ok("bad-op"),
+        };
+        if let Some(d) = bad {
+            o = Outcome::ok(format!("fail {}", d)).fail(format!("{}.soak.{}", F::NAME, op), d);
+            break;
+        }
+    }
+    o
+}
+
 fn exec_f<F: Fld>(t: &[&str]) -> Outcome {
     let m = F::MOD;
     let p = |s: &str| s.parse::<u128>().unwrap();
     match t {
+        ["soak", op, seed, count] => {
+            return soak::<F>(op, seed.parse().unwrap_or(0), count.parse().unwrap_or(0).min(1 << 20));
+        },
         ["bin", op, a, b] | ["rbin", op, a, b] => {
             let raw = t[0] == "rbin";
             let (x, y) = if raw {
@@ -484,6 +558,20 @@ impl Prop for P {
         gen_f::<f64::BaseElement>(rng, n, emit);
         gen_f::<f62::BaseElement>(rng, n, emit);
         gen_f::<f128::BaseElement>(rng, n / 2, emit);
+        // volume runs judged by the oracle only: quick 2^22 inversions per loop-based field, thorough 2^30 for
+        // the 128-bit field (events of probability ~1e-9, e.g. the rarest trip counts of the final reduction loop)
+        let chunk: u64 = 1 << 16;
+        let plan: &[(&str, &str, u64, u64)] = &[
+            ("f128", "inv", 1 << 22, 1 << 30), ("f62", "inv", 1 << 22, 1 << 28), ("f64", "inv", 1 << 20, 1 << 26),
+            ("f128", "mul", 1 << 22, 1 << 28), ("f62", "mul", 1 << 20, 1 << 26), ("f64", "mul", 1 << 20, 1 << 26),
+            ("f128", "div", 1 << 20, 1 << 26), ("f128", "addsub", 1 << 20, 1 << 24), ("f62", "addsub", 1 << 20, 1 << 24),
+            ("f64", "addsub", 1 << 20, 1 << 24)];
+        for (f, op, q, t) in plan {
+            let total = if tier == Tier::Quick { *q } else { *t };
+            for _ in 0..(total / chunk) {
+                emit(format!("{} soak {} {} {}", f, op, rng.u64(), chunk));
+            }
+        }
     }
     fn exec(&self, line: &str) -> Outcome {
         let t: Vec<&str> = line.split(' ').collect();
